@@ -56,6 +56,34 @@ chk("C15", "model_checking",
     "Rang3.tla models Normalize as a state machine (heap as a set popped in (B,E) order, the four geometric cases, onChange events, the relabelling map) and TLC checks exhaustively over every list of <= 3 ranges in 0..U: termination, every original range is the exact union of its pieces (invariant and per-event action property), final pieces disjoint-or-equal; the real rang3.Normalize/Flatten/Subtract are run on the same lists at three placements (0, U+4E00, up to U+10FFFF) and Rang3Trace requires the recorded onChange events to be exactly the model's and Flatten/Subtract to be set union/difference; over the full universe class and literal specifications (every escape, negation, difference, dot, overlapping classes, random ranges at UTF-8 length boundaries) are compared with LexSem!InClass at every boundary code point +-1 through the real lexer and through the emitted table.",
     BASE + "surrogate code points cannot occur in UTF-8 input and are not fed; U=5 (quick) / 7 (thorough)",
     "exhaustive TLC model of the range splitter + event-trace binding to the real package; boundary product exploration", "DESIGN.md 3 C15")
+chk("C06", "exploration",
+    "A fixed grammar skeleton (shared productions, x+, z?, @error) is bound to methods over a universe of 35 Go types (named/unnamed slices, maps, funcs, alias, interfaces, generic instantiations); configurations (result type x parameter type per term kind, token parameter types, method layouts: shared, ambiguous, missing, orphaned, unknown rule, two return types, two results, wrong arity) are decided by Binding.tla from the assignability/identity relations computed with go/types; lox's verdict must agree and name a production or method; every accepted package is compiled and six sentences are parsed with marked values so that every parameter is shown to hold the value produced for its term.",
+    BASE + "go/types supplies assignability; the Go type system is not modelled; configurations are enumerated one dimension at a time around a collision-free base plus layouts",
+    "verdict rule in TLA+ over go/types relations, evaluated by TLC per configuration; compiled value-flow marks", "DESIGN.md 3 C06")
+chk("C12", "exploration",
+    "GenPipeline.tla models one run as the stage pipeline ParseLox..EmitParser with its terminal states (success: three files, exit 0; failure: >= 1 diagnostic, exit != 0) and is model-checked; 190+ enumerated configuration faults (lox-side x go-side, with the stage that must fail) and hundreds (thousands in thorough) of token-level / byte-level mutations of valid grammars and texts derived from the shape of lox's own grammar are run through the real CLI; TLC validates every observation (exit, diagnostics, generated files present and parseable, panic, hang) as a terminal state of the model.",
+    BASE + "the search over byte strings is generation with a specification as judge, not exploration of a model; 60 s stands for a hang",
+    "outcome model in TLA+; every observed run validated against it by TLC; fault enumeration + mutation", "DESIGN.md 3 C12")
+chk("C13", "model_checking",
+    "GenDir.tla (directory state: source, class of each generated file; actions Gen/SetSource/Delete/Corrupt/Stale) is model-checked (after Gen on a valid source all files are Out(src) whatever preceded; Gen is a fixpoint); enumerated histories ([Gen,] op [, op], Gen from every initial source, varying working directory and --report) are replayed on the real binary and validated step by step by GenDirTrace (file classes against fresh-directory output, exit status, report bytes); repeated generations in separate processes re-sample map iteration order.",
+    BASE + "map iteration orders are re-sampled, not enumerated; three projects (two valid, one invalid)",
+    "TLA+ directory model + trace validation of replayed histories", "DESIGN.md 3 C13")
+chk("C14", "model_checking",
+    "lox is built from a scratch copy of the working tree and run on internal/parser and the three examples; every generated file must be byte-identical to the checked-in one (12 file comparisons, exhaustive); the four one-step traces are validated against GenDir's Gen action with Out(src) := the checked-in bytes.",
+    "the specification contributes only the one-step trace check; the comparison is exhaustive over the checked-in generated files",
+    "regeneration + byte comparison, one-step trace validation against GenDir", "DESIGN.md 3 C14")
+chk("C17", "exploration",
+    "A well-formed two-file base specification and every single-fault variant (duplicate names across kinds, each naming rule, every kind of undefined/ambiguous reference, macro cycles used/unused, zero/two @start, @discard/@emit on tokens, doubled on fragments, empty literal, reversed range -- each in the default section, inside a mode and in the second file) plus well-formed variations; WellFormed.tla evaluates the documented rules on an abstract rendering of each variant; lox's in-process front-end verdict must agree and a diagnostic must point inside the faulty declaration.",
+    BASE + "the abstract rendering of each variant is produced by the same generator as its text; don't-care shapes are never generated",
+    "well-formedness rules in TLA+ evaluated by TLC on enumerated single-fault variants", "DESIGN.md 3 C17")
+chk("C18", "model_checking",
+    "Concurrent.tla states the design (instances own all mutable state, tables are never written) and TLC enumerates every interleaving of 2-3 instances at the granularity of lexer reads; every schedule is replayed on real goroutines through a blocking gate in ReadToken (same and mixed grammars, recovery, _onBounds) and each instance's event trace must equal its sequential trace; 64 goroutines run freely under the race detector; a go/ast inventory binds the spec's variable list to the generated files (package-level vars are exactly the tables; no function body writes them).",
+    BASE + "Go race detector; interleavings finer than callbacks are covered only by -race and the inventory",
+    "TLC-enumerated schedules replayed on goroutines; race detector; variable inventory", "DESIGN.md 3 C18")
+chk("C19", "translation_validation",
+    "TLC enumerates declaration layouts (tokens, tokens with modes, @external lines, @emit fragments, a second file sorting before/after); for each the expected numbering (EOF=0, ERROR=1, then dense in declaration order, files in name order) is compared with the const block, with _TokenToString evaluated in the compiled package over -1..n+1, with the token type the real lexer returns for each rule's lexeme, and with the keys of the parser's start-state action row.",
+    BASE + "layouts up to 4 items; all of length <= 2, a seeded sample of longer ones",
+    "expected numbering in TLA+ compared with the three generated files and the running lexer", "DESIGN.md 3 C19")
 
 def main():
     props = [json.loads(l)["id"] for l in open("/verif/properties.jsonl")]
